@@ -2,7 +2,7 @@
    all nodes agree who".  V2 and PoS share the sequence scheduler; `ps` is the candidate list paired with
    the sort key computed from the seed (Blake2b rank / ChaCha8 float score: inputs, see DESIGN §4-C05). *)
 From Coq Require Import List NArith Bool Lia.
-From Verif Require Import Common.Util Sched.Model Sched.Arith Sched.Proofs Sched.ProofsUpdates.
+From Verif Require Import Common.Util Sched.Model Sched.Arith Sched.Proofs Sched.ProofsUpdates Sched.ProofsV1.
 Import ListNotations.
 Open Scope N_scope.
 
@@ -115,6 +115,62 @@ Theorem v1_score h pt T acts mep nbt :
   let score := snd (updates_v1 h pt T acts mep nbt) in 1 <= score /\ score <= N.of_nat (length acts).
 Proof. exact (score_v1_bounds h pt T acts mep nbt). Qed.
 
+(* 7. PoA v1 over the list the constructor really builds (actives_v1 = the listed proposers that are active or me):
+      never empty for a listed proposer (so the Go `% len(actives)` cannot divide by zero), contains me, keeps addresses
+      distinct, and — all nodes agree — is the same from the viewpoint of any two active members *)
+Definition v1_listed (me : N) (ps : list proposer) := exists mep, In mep ps /\ p_addr mep = me.
+Definition v1_listed_active (me : N) (ps : list proposer) := exists p, In p ps /\ p_addr p = me /\ p_active p = true.
+
+Theorem v1_actives_wellformed me ps : v1_listed me ps -> NoDup (addrs ps) ->
+  actives_v1 me ps <> [] /\ In me (addrs (actives_v1 me ps)) /\ NoDup (addrs (actives_v1 me ps)) /\
+  forall p, In p (actives_v1 me ps) <-> In p ps /\ (p_active p = true \/ p_addr p = me).
+Proof.
+  intros [mep [Hin E]] Hnd. split; [exact (actives_v1_nonempty me ps mep Hin E)|].
+  split; [exact (actives_v1_me me ps mep Hin E)|]. split; [exact (actives_v1_nodup me ps Hnd)|].
+  exact (actives_v1_in me ps).
+Qed.
+
+Theorem v1_owner_agreement me1 me2 ps : NoDup (addrs ps) -> v1_listed_active me1 ps -> v1_listed_active me2 ps ->
+  actives_v1 me1 ps = actives_v1 me2 ps.
+Proof. exact (actives_v1_agree me1 me2 ps). Qed.
+
+(* for a listed proposer every slot has an owner among the constructor's actives, and the score is within [1, n] *)
+Theorem v1_slot_owner_listed h me ps t : v1_listed me ps ->
+  exists p, whose_turn h (actives_v1 me ps) t = Some p /\ In p (actives_v1 me ps).
+Proof. intros [mep [Hin E]]. apply whose_turn_some. exact (actives_v1_nonempty me ps mep Hin E). Qed.
+
+Theorem v1_score_listed h pt T ps mep nbt : In mep ps -> NoDup (addrs ps) ->
+  let acts := actives_v1 (p_addr mep) ps in
+  let score := snd (updates_v1 h pt T acts mep nbt) in 1 <= score /\ score <= N.of_nat (length acts).
+Proof.
+  intros Hin Hnd acts. apply score_v1_bounds; [exact (actives_v1_nodup _ ps Hnd)|exact (actives_v1_me _ ps mep Hin eq_refl)].
+Qed.
+
+(* v1 Updates completeness: the owner (other than me) of every slot walked back from nbt - T, within 101 slots and after the
+   parent, is deactivated *)
+Theorem v1_updates_complete h pt T acts mep nbt i p :
+  i < 101 -> (i + 1) * T <= nbt -> pt < nbt - T - i * T ->
+  (forall j, j <= i -> whose_turn h acts (nbt - T - j * T) <> None) ->
+  whose_turn h acts (nbt - T - i * T) = Some p -> p_addr p <> p_addr mep ->
+  In (p_addr p, false) (fst (updates_v1 h pt T acts mep nbt)).
+Proof.
+  intros Hi Hle Hgt Hall Hp Hnm. cbn [updates_v1 fst]. apply in_or_app. left.
+  apply in_map_iff. exists (p_addr p). split; [reflexivity|]. apply dedupN_in.
+  apply (missed_v1_complete h pt T acts (p_addr mep) initial_max_block_proposers (nbt - T) i p); auto;
+    unfold initial_max_block_proposers; try lia; nia.
+Qed.
+
+(* 8. converse of schedule_accepted (v2 / PoS): a slot the proposer owns is exactly what Schedule answers when asked at that
+      time — so "the validator accepts t from me" and "the packer, asked at t, waits for t" are the same fact *)
+Theorem owned_slot_scheduled me ps pt T t : 0 < T -> listed me ps ->
+  is_scheduled pt T (addrs (seq_of me ps)) t me = true -> schedule pt T (addrs (seq_of me ps)) me t = Some t.
+Proof.
+  intros HT [mep [Hin E]]. apply owned_slot_is_scheduled; auto. exact (me_in_seq me ps mep Hin E).
+Qed.
+
+Theorem reactivation_iff mep : reactivation mep = if p_active mep then [] else [(p_addr mep, true)].
+Proof. exact (updates_reactivation mep). Qed.
+
 (* non-vacuity: a concrete 4-member list (one inactive), keys out of order *)
 Definition ex_ps : list (proposer * N) :=
   [ (mkP 11 true 5, 40); (mkP 22 false 7, 10); (mkP 33 true 1, 30); (mkP 44 true 9, 20) ].
@@ -126,6 +182,26 @@ Proof.
 Qed.
 Example ex_seq : addrs (seq_of 22 ex_ps) = [22; 44; 33; 11] /\ addrs (seq_of 11 ex_ps) = [44; 33; 11]
                  /\ schedule 1000 10 (addrs (seq_of 22 ex_ps)) 22 1075 = Some 1090.
+Proof. vm_compute. auto. Qed.
+
+(* non-vacuity for Updates / scores / v1: 5 missed slots on the 4-member sequence of viewpoint 22 (inactive): the three other members
+   are deactivated, 22 re-activates itself, score 1; PoS score with weights 5,7,1,9 and total 22 *)
+Example ex_updates : updates_v2 1000 10 (seq_of 22 ex_ps) (mkP 22 false 7) 1060
+                     = ([(44, false); (33, false); (11, false); (22, true)], 1)
+                  /\ snd (updates_pos 1000 10 (seq_of 22 ex_ps) (mkP 22 false 7) 22 1030) = 5909.
+Proof. vm_compute. auto. Qed.
+Example ex_score_pos_hyps : sumN (weights (seq_of 22 ex_ps)) * max_pos_score < 18446744073709551616 /\ sumN (weights (seq_of 22 ex_ps)) <= 22.
+Proof. vm_compute. split; [reflexivity|discriminate]. Qed.
+Definition ex_v1 : list proposer := [mkP 11 true 0; mkP 22 false 0; mkP 33 true 0].
+Definition ex_h (t : N) : N := t / 10 * 7 + 3.   (* stands for dprp(parentNumber, t) *)
+Example ex_v1_hyps : v1_listed 22 ex_v1 /\ NoDup (addrs ex_v1) /\ v1_listed_active 11 ex_v1 /\ v1_listed_active 33 ex_v1.
+Proof.
+  split; [exists (mkP 22 false 0); cbn; tauto|]. split; [repeat constructor; cbn; intuition discriminate|].
+  split; [exists (mkP 11 true 0)|exists (mkP 33 true 0)]; cbn; tauto.
+Qed.
+Example ex_v1_run : addrs (actives_v1 22 ex_v1) = [11; 22; 33] /\ addrs (actives_v1 11 ex_v1) = [11; 33]
+                 /\ schedule_v1 ex_h 1000 10 (actives_v1 22 ex_v1) 22 1005 50 = Some 1030
+                 /\ fst (updates_v1 ex_h 1000 10 (actives_v1 22 ex_v1) (mkP 22 false 0) 1020) = [(33, false); (22, true)].
 Proof. vm_compute. auto. Qed.
 
 Print Assumptions slot_owner_unique.
@@ -144,3 +220,10 @@ Print Assumptions v1_schedule_is_earliest.
 Print Assumptions v1_schedule_out_of_fuel.
 Print Assumptions v1_updates_sound.
 Print Assumptions v1_score.
+Print Assumptions v1_actives_wellformed.
+Print Assumptions v1_owner_agreement.
+Print Assumptions v1_slot_owner_listed.
+Print Assumptions v1_score_listed.
+Print Assumptions v1_updates_complete.
+Print Assumptions owned_slot_scheduled.
+Print Assumptions reactivation_iff.
